@@ -563,6 +563,37 @@ fn main() {
         }
     }
 
+    // ---- rules whose text occurs only in the FRAGMENT of the URL (the matchers see the whole URL, so
+    // the index has to probe the tokens of the fragment too), next to rules that compete for the
+    // rule's other tokens
+    for it in 0..60 * a.scale {
+        let pat = gen::pattern(&mut r);
+        let body = pat.trim_start_matches('|').trim_end_matches('|').replace('^', "/").replace('*', "zz");
+        if body.starts_with("||") || body.len() < 3 || !body.is_ascii() { continue; }
+        let mut lines: Vec<String> = vec![if it % 3 == 0 { format!("@@{}", pat.trim_start_matches('|')) } else { pat.trim_start_matches('|').to_string() }];
+        if it % 3 == 0 { lines.push(format!("||{}^", gen::HOSTS[it % gen::HOSTS.len()])); }
+        for _ in 0..r.range(1, 5) { lines.push(gen::rule(&mut r, false)); }
+        let rules: Vec<NetworkFilter> = lines.iter().filter_map(|l| parse(l)).collect();
+        let host = gen::HOSTS[it % gen::HOSTS.len()];
+        for url in [format!("https://{}/page.html#{}", host, body), format!("https://{}/p?x=1#/{}", host, body.trim_start_matches('/'))] {
+            let src = "https://a.com/page";
+            let Ok(req) = Request::new(&url, src, "script") else { continue };
+            register_request(&req, &url, src, "script");
+            let e = build(&lines, &[], false);
+            let got = engine_verdict(&e, &req);
+            let want = spec(&rules, &HashSet::new(), &req);
+            sm.oracle_evaluations += 1;
+            cs.stat("rule_text_only_in_fragment_queries");
+            if got != want {
+                let lost: Vec<&NetworkFilter> = rules.iter().filter(|f| rule_matches(f, &req) && !tg_ok(f, &req)).collect();
+                let classes: Vec<Option<&str>> = lost.iter().map(|f| known_class(f, &req, &url)).collect();
+                let class = if !lost.is_empty() && classes.iter().all(|c| c.is_some()) { classes[0] } else { None };
+                sm.failure(class, &format!("rule text only in the fragment: engine says {:?}, rule-by-rule evaluation says {:?}", got, want),
+                    json!({"rules": lines, "tags": [], "url": url, "source": src, "type": "script"}));
+            }
+        }
+    }
+
     // ---- known-finding examples (kept as a corpus; reported only while they still fail)
     let known: [(&str, &[&str], &str, &str, &str); 3] = [
         ("F2_no_source_domain_token", &["adz$domain=a.com", "adz/x1", "adz/x2"], "https://x.com/adz", "", "script"),
